@@ -17,7 +17,7 @@ WORKERS = int(os.environ.get("VERIF_WORKERS", "8"))
 
 
 class Slice:
-    def __init__(self, name, terminals, ops, maxnodes, lits=(), zeros=(), idx=(10, 11), maxrank=2, maxdim=2, finalops=(), gdim=2, nenv=2, complex_env=False, small=False, simulate=None, depth=None, square_gram=(), tiny=False, levels=(), only_final=False, mikinds=("fixed", "name", "slice"), replacements=(), jets=None):
+    def __init__(self, name, terminals, ops, maxnodes, lits=(), zeros=(), idx=(10, 11), maxrank=2, maxdim=2, finalops=(), gdim=2, nenv=2, complex_env=False, small=False, simulate=None, depth=None, square_gram=(), tiny=False, levels=(), only_final=False, mikinds=("fixed", "name", "slice"), replacements=(), jets=None, geometry=None, chain=False):
         self.name = name
         self.terminals = terminals
         self.ops = set(ops)
@@ -40,6 +40,8 @@ class Slice:
         self.only_final = only_final
         self.mikinds = tuple(mikinds)
         self.replacements = list(replacements)
+        self.chain = chain
+        self.geometry = geometry  # dict(gdim=, tdim=, names={J,K,detJ}, identities={name: n}, opts={name: {kind:}})
         self.jets = jets  # dict(mode=, ndir=, seeds=, opts=, gateaux=) -> derivative semantics (spec/jets/CQ.tla)
         for l in self.levels:
             self.ops |= l - self.finalops
@@ -92,12 +94,12 @@ def _tlc_phase(seed, sl, timeout, workers):
         pool.gateaux = j.get("gateaux", [])
         pool.seed_term = j.get("seed_term")
     else:
-        pool = Pool(sl.terminals, nenv=sl.nenv, seed=seed + hash_name(sl.name), complex_env=sl.complex_env, small=sl.small, square_gram=sl.square_gram, tiny=sl.tiny)
+        pool = Pool(sl.terminals, nenv=sl.nenv, seed=seed + hash_name(sl.name), complex_env=sl.complex_env, small=sl.small, square_gram=sl.square_gram, tiny=sl.tiny, geometry=sl.geometry)
     for src, img in sl.replacements:
         pool.add_replacement(src, img)
     name = "MC_" + sl.name.replace("-", "_")
     mc = replay.mc_module(name, pool, sl.lits, sl.zeros, sl.idx, sl.ops | sl.finalops, sl.maxnodes, sl.maxrank, sl.maxdim, sl.finalops, sl.levels, getattr(pool, "replmaps", ()))
-    cfg = replay.mc_cfg(pool, sl.maxnodes, sl.maxrank, sl.maxdim, final_only=sl.only_final, mikinds=sl.mikinds)
+    cfg = replay.mc_cfg(pool, sl.maxnodes, sl.maxrank, sl.maxdim, final_only=sl.only_final, mikinds=sl.mikinds, chain=sl.chain)
     kw = {}
     if sl.simulate:
         kw = dict(simulate=f"num={max(1, sl.simulate // workers)}", depth=sl.depth or (sl.maxnodes + 1), seed=seed + 1)
@@ -115,7 +117,7 @@ def _replay_phase(ctx, sl, pid, pool, res, on_mismatch, accept, post=None, guard
     recs = tlc.decode_prints(res)
     if not recs:
         raise MachineryError(f"slice {sl.name}: TLC produced no behaviours")
-    w = replay.World(pool, sl.lits, sl.zeros, sl.idx, gdim=sl.gdim)
+    w = replay.World(pool, sl.lits, sl.zeros, sl.idx, gdim=sl.gdim, embed=(sl.geometry or {}).get("gdim"))
     w.guard_inputs = guard_inputs
     stats = {}
     seen_ops = {}
